@@ -411,6 +411,9 @@ def r19_underscore_assign(f):
         f.apply(edits, "R19")
 
 
+_CTX = {}
+
+
 def r15_block_on(f):
     """R15: the synchronous cli handlers are verified as async fns: `rt.block_on(E)` -> `E.await`;
     `rt.block_on(async { S; E })?` -> `{ S; (E)? }` (the outer `?` makes every inner `?` a return from the handler);
@@ -435,9 +438,34 @@ def r15_block_on(f):
                 k += 1
             if c[k].text != "{" or f.br[k] != cl - 1:
                 raise RuleError("R15: block_on(async ..) is not a single block")
-            if not (cl + 1 < len(c) and c[cl + 1].text == "?"):
-                raise RuleError("R15: block_on(async { .. }) must be followed by `?`")
             bo, bc = k, cl - 1
+            if not (cl + 1 < len(c) and c[cl + 1].text == "?"):
+                # `rt.block_on(async { E1?; ..; En?; T })` whose value is used as a Result: an inner `?` leaves the BLOCK, not the handler.
+                # Each `Ei?;` becomes `let r = Ei; match r { Err(e) => Err(From::from(e)), Ok(v) => { <v is dropped: end of the statement>; .. } }`
+                # (when Ei produces a lock guard - R21's guard_calls - the drop releases the lock: `lock_dropped`)
+                parts, start, depth = [], bo + 1, 0
+                for q in range(bo + 1, bc):
+                    if c[q].text in ("(", "[", "{"):
+                        depth += 1
+                    elif c[q].text in (")", "]", "}"):
+                        depth -= 1
+                    elif c[q].text == ";" and depth == 0:
+                        parts.append((start, q))
+                        start = q + 1
+                if start >= bc:
+                    raise RuleError("R15: async block without a trailing expression")
+                tail = f.tok_text(start, bc - 1)
+                out = "(%s)" % tail
+                for (a, z) in reversed(parts):
+                    if c[z - 1].text != "?" or c[a].text == "let":
+                        raise RuleError("R15: block_on(async { .. }) without `?`: every statement of the block must have the form `EXPR?;`")
+                    expr = f.tok_text(a, z - 2)
+                    guard = any(c[q].kind == "ident" and c[q].text in (_CTX.get("guard_calls") or []) and c[q - 1].text == "." for q in range(a, z))
+                    n = len(parts) - parts.index((a, z))
+                    out = "{ let r__%d = %s; match r__%d { Err(e__) => Err(::core::convert::From::from(e__)), Ok(v__) => { drop_stmt_value(v__);%s %s } } }" % (
+                        n, expr, n, " lock_dropped(Tracked(w));" if guard else "", out)
+                f.apply([(c[recv_a].pos, c[cl].end, out)], "R15")
+                continue
             # trailing expression: after the last `;` at depth 0 inside the block
             last = bo
             depth = 0
@@ -724,6 +752,7 @@ ORDER = ["R1", "R19", "R15", "R16", "R17", "R11", "R7", "R5", "R6", "R3", "R4", 
 def rewrite(text, origin, rules, substs=None, world_calls=None, guard_calls=None):
     f = Frag(text, origin)
     done = set()
+    _CTX["guard_calls"] = guard_calls
     if substs:
         pre = [s for s in substs if s.get("when") == "pre"]
         if pre:
